@@ -2,6 +2,8 @@
 
 mod core;
 mod fam_a;
+mod fam_b;
+mod fam_c;
 mod hist;
 mod json;
 mod oracle_a;
@@ -40,6 +42,8 @@ struct PropAgg {
 fn family_props(f: &str) -> &'static [&'static str] {
     match f {
         "A" => &["C01", "C02", "C03", "C07", "C08", "C18"],
+        "B" => &["C04", "C15", "C01", "C02", "C18"],
+        "C" => &["C05", "C06", "C02", "C18"],
         _ => &[],
     }
 }
@@ -47,6 +51,8 @@ fn family_props(f: &str) -> &'static [&'static str] {
 fn run_one(family: &str, seed: u64, tiny: bool, focus: &str) -> Outcome {
     match family {
         "A" => fam_a::run(seed, tiny, focus),
+        "B" => fam_b::run(seed, tiny, focus),
+        "C" => fam_c::run(seed, tiny, focus),
         _ => panic!("unknown family {}", family),
     }
 }
